@@ -37,7 +37,7 @@ def _sub(text):
     import re
     text = re.sub(r"is_partial=(True|False)", "is_partial=_", text)
     text = text.replace("super().partial_fit(", "super()._(").replace("super().fit(", "super()._(")
-    text = re.sub(r"context_start=\w+", "context_start=_", text)
+    text = re.sub(r"context_start=(len\(self\.\w+\)|\w+)", "context_start=_", text)
     return " ".join(text.split())
 
 
@@ -194,8 +194,9 @@ def check_siblings(ctx):
         ctx.saw_fn(ffit)
         ctx.saw_fn(fpar)
         notes = []
-        tf = sorted(_tokens(ffit.node.body, "fit", notes), key=str)
-        tp = sorted(_tokens(fpar.node.body, "partial_fit", notes), key=str)
+        from .terms import final_form
+        tf = sorted(_tokens(final_form(ffit.node.body), "fit", notes), key=str)
+        tp = sorted(_tokens(final_form(fpar.node.body), "partial_fit", notes), key=str)
         n += 1
         # Any batch-independent prefix of fit is a reset R whatever its idiom: with fit = P o R and partial_fit = P,
         # fit(A); partial_fit(B) == fit(A + B) follows from P's additivity alone (R6.2/R6.3), so such statements
@@ -207,7 +208,7 @@ def check_siblings(ctx):
                 continue
             if any(isinstance(x, ast.Name) and x.id in params for x in ast.walk(st)):
                 break
-            excusable.extend(_tokens([st], "fit", []))
+            excusable.extend(_tokens(final_form([st]), "fit", []))
         only_f = [t for t in tf if t not in tp and t not in excusable]
         only_p = [t for t in tp if t not in tf]
         ctx.check(not only_f and not only_p, "R6.1", "%s.fit == reset o %s.partial_fit" % (cname, cname), fpar.node,
@@ -220,43 +221,31 @@ def check_history_append(ctx):
     """R3.4 / R6.1: partial_fit appends old-then-new with the matching operand for each history field."""
     prog = ctx.prog
     n = 0
+    from .terms import final_form
     for cname in ("_Neighbors", "_Clusters"):
         fn = prog.method(cname, "partial_fit")
-        defs = {}
-        for node in ast.walk(fn.node):
-            if isinstance(node, ast.Assign) and len(node.targets) == 1 and isinstance(node.targets[0], ast.Name):
-                defs.setdefault(node.targets[0].id, []).append(node.value)
         stores = {}
-        for node in ast.walk(fn.node):
-            if isinstance(node, ast.Assign) and len(node.targets) == 1:
-                t = node.targets[0]
-                if _self_field(t) in ("decisions", "rewards", "contexts"):
-                    stores[_self_field(t)] = (node, node.value)
-                elif isinstance(t, ast.Tuple) and isinstance(node.value, ast.Tuple):
-                    for te, ve in zip(t.elts, node.value.elts):
-                        if _self_field(te) in ("decisions", "rewards", "contexts"):
-                            stores[_self_field(te)] = (node, ve)
+        for st in final_form(fn.node.body):
+            for node in ast.walk(st):
+                if isinstance(node, ast.Assign) and len(node.targets) == 1 and \
+                        _self_field(node.targets[0]) in ("decisions", "rewards", "contexts"):
+                    stores.setdefault(_self_field(node.targets[0]), []).append(node)
         for fld in ("decisions", "rewards", "contexts"):
             n += 1
             if fld not in stores:
                 ctx.violate("R6.1", "%s.partial_fit appends to %s" % (cname, fld), fn.node, fn,
                             "no store to self.%s found" % fld, construct="def %s.partial_fit" % cname)
                 continue
-            node, v = stores[fld]
-            hops = 0
-            while isinstance(v, ast.Name) and hops < 3:
-                cands = [d for d in defs.get(v.id, []) if isinstance(d, ast.Call)
-                         and ast.unparse(d.func) == "np.concatenate"]
-                if len(cands) != 1:
-                    break
-                v = cands[0]
-                hops += 1
-            ok = isinstance(v, ast.Call) and ast.unparse(v.func) == "np.concatenate" and v.args and \
-                isinstance(v.args[0], (ast.Tuple, ast.List)) and len(v.args[0].elts) == 2 and \
-                _self_field(v.args[0].elts[0]) == fld and isinstance(v.args[0].elts[1], ast.Name) and \
-                v.args[0].elts[1].id == fld
-            ctx.check(ok, "R6.1", "%s.partial_fit appends the new %s after the stored %s" % (cname, fld, fld), node,
-                      fn, "expected np.concatenate((self.%s, %s))" % (fld, fld))
+            for node in stores[fld]:
+                v = node.value
+                ok = isinstance(v, ast.Call) and ast.unparse(v.func) == "np.concatenate" and v.args and \
+                    isinstance(v.args[0], (ast.Tuple, ast.List)) and len(v.args[0].elts) == 2 and \
+                    _self_field(v.args[0].elts[0]) == fld and not _mentions_field(v.args[0].elts[1], fld) and \
+                    any(isinstance(x, ast.Name) and x.id == fld for x in ast.walk(v.args[0].elts[1])) and \
+                    not v.keywords and len(v.args) == 1
+                ctx.check(ok, "R6.1", "%s.partial_fit appends the new %s after the stored %s" % (cname, fld, fld),
+                          node, fn, "the value stored is `%s`; expected np.concatenate((self.%s, <the batch's %s>))" %
+                          (" ".join(ast.unparse(v).split())[:200], fld, fld))
     ctx.floor("R6.1", "history append sites", n, 6)
 
 
